@@ -1,0 +1,93 @@
+//go:build verif
+
+// Contracts for the verification machinery in /verif (govc). Comment-only.
+
+package api
+
+//@ spec validPerm(p Permission) bool = 1 <= p && p <= 4
+//@ spec perm(t *AuthToken, readMethod bool) Permission = readMethod ? t.Read : t.Write
+
+//@ func getEffectiveMethod
+//@   requires r != nil
+//@   ensures ok ==> eMethod != ""
+
+//@ func parseAPIPermission
+//@   ensures r0 == 1 || r0 == 2 || r0 == 3
+//@   ensures r1 != nil ==> r0 == 1
+
+// global invariants of the credential stores (established by their only writers, see the writers check)
+//@ spec keysOK() bool = forall k string :: has(apiKeys, k) ==> apiKeys[k] != nil
+//@ spec sessionsOK() bool = forall k string :: has(sessions, k) ==> sessions[k] != nil && sessions[k].token != nil
+
+// a configured, unexpired API key (Bearer or Basic); anything else grants nothing and never panics
+//@ func checkAPIKey
+//@   requires r != nil
+//@   assume keysOK()
+//@   ensures r0 != nil ==> (exists k string :: has(apiKeys, k) && apiKeys[k] == r0)
+
+//@ func checkSessionCookie
+//@   requires r != nil
+//@   assume sessionsOK()
+//@   modifies *
+//@   ensures r0 != nil ==> (exists k string :: has(sessions, k) && sessions[k].token == r0)
+
+//@ func (*session).Refresh
+//@   requires sess != nil
+//@   modifies sess.validUntil.wall, sess.validUntil.ext, sess.validUntil.loc
+
+//@ func (*session).Expired
+//@   requires sess != nil
+//@   pure
+
+//@ func createSession
+//@   requires r != nil && w != nil && token != nil
+//@   assume sessionsOK()
+//@   modifies *
+//@   ensures sessionsOK()
+
+// decision order of the credential sources
+//@ func checkAuth
+//@   requires r != nil && w != nil
+//@   assume keysOK() && sessionsOK()
+//@   modifies *
+//@   ghost var dev bool = false
+//@   ghost var keyTok *AuthToken = nil
+//@   ghost var cookieTok *AuthToken = nil
+//@   ghost var code int = 0
+//@   ghost var remote string = ""
+//@   at after dynamic#0 ghost dev = ret0
+//@   at after dynamic#0 ghost remote = r.RemoteAddr
+//@   at after checkAPIKey ghost keyTok = ret0
+//@   at after checkSessionCookie ghost cookieTok = ret0
+//@   at call http.Error ghost code = arg2
+//@   ensures handled ==> token == nil && (code == 403 || code == 500)
+//@   ensures dev ==> !handled && token != nil && fresh(token) && token.Read == 4 && token.Write == 4
+//@   ensures !dev && remote == endpointBridgeRemoteAddress ==> !handled && token != nil && fresh(token) && token.Read == 3 && token.Write == 3
+//@   ensures !dev && remote != endpointBridgeRemoteAddress && keyTok != nil ==> !handled && token == keyTok
+//@   ensures !dev && remote != endpointBridgeRemoteAddress && keyTok == nil && cookieTok != nil ==> !handled && token == cookieTok
+
+// authenticateRequest: a token is only returned for a valid declared permission and a
+// valid granted permission that is at least as high; every refusal is answered.
+//@ func authenticateRequest
+//@   requires r != nil && w != nil
+//@   assume keysOK() && sessionsOK()
+//@   modifies *
+//@   ghost var req int8 = 4
+//@   ghost var responded int = 0
+//@   ghost var handledByAuth bool = false
+//@   at after invoke.ReadPermission ghost req = int8(ret0)
+//@   at after invoke.WritePermission ghost req = int8(ret0)
+//@   at call http.Error ghost responded = arg2
+//@   at after checkAuth ghost handledByAuth = ret1
+//@   ensures r0 != nil ==> req == -1 || (1 <= req && req <= 4)
+//@   ensures r0 != nil ==> fresh(r0) && validPerm(perm(r0, readMethod)) && int8(perm(r0, readMethod)) >= (req == -1 ? 1 : req)
+//@   ensures req == -2 || req == 0 || req < -2 || req > 4 ==> r0 == nil
+//@   ensures r0 == nil ==> handledByAuth || responded == 401 || responded == 403 || responded == 404 || responded == 405 || responded == 500
+
+// the only writer of the API key store: every stored token is non-nil
+//@ func updateAPIKeys
+//@   assume keysOK()
+//@   modifies *
+//@   ensures keysOK()
+//@   loop 0 invariant keysOK()
+//@   loop 1 invariant keysOK() && rangeindex >= -1 && rangeindex <= 1<<48
